@@ -8,6 +8,7 @@ Two mechanisms (DESIGN.md 3.5):
   pivoting (pivots guarded non-zero) and triangular substitution.  These are exact computations.
 """
 import numpy as _np
+import z3
 
 from . import ctx as _ctx
 from .scalars import R, C, SB
@@ -224,8 +225,34 @@ def eig(a, b=None, **k):
     return _eig_registered(a, b, "eig")
 
 
+def _hermitian_precondition(c, M, what):
+    """LAPACK's ?syev/?heev read ONE triangle: handing eigh a matrix that is not Hermitian silently solves a different
+    problem.  Recorded as an obligation of the path (harness/common.symbolic_run turns it into a clause)."""
+    A = _dense(M)
+    conds = []
+    n = A.shape[0]
+    for i in range(n):
+        for j in range(i):
+            x, y = A[i, j], A[j, i]
+            yc = y.conjugate() if isinstance(y, (R, C)) else _np.conj(y)
+            e = (x == yc)
+            if isinstance(e, SB):
+                conds.append(e.t)
+            elif not bool(e):
+                conds.append(z3.BoolVal(False))
+    if conds:
+        if not hasattr(c, "lib_preconditions"):
+            c.lib_preconditions = []
+        c.lib_preconditions.append(("scipy.linalg.eigh: %s is Hermitian (only one triangle is read)" % what,
+                                    SB(z3.And(*conds)) if len(conds) > 1 else SB(conds[0])))
+
+
 def _eig_registered(a, b, kind):
     c = _ctx.current()
+    if kind == "eigh":
+        _hermitian_precondition(c, a, "a")
+        if b is not None:
+            _hermitian_precondition(c, b, "b")
     regs = _reg(c).get("eig", [])
     if not regs:
         raise _nps.EncodingGap("scipy.linalg.%s without registered oracle eigenpairs" % kind)
